@@ -1,9 +1,9 @@
 package chk
 
 import (
-	"go/types"
 	"fmt"
 	"go/token"
+	"go/types"
 	"os"
 	"regexp"
 	"sort"
@@ -36,7 +36,11 @@ var travPrimitives = map[string]bool{
 var travProg *Program
 
 // travSeq renders the call events of a path as "callee(args)" strings, inlining helper functions one level deep.
-func travSeq(lp *LPath) []string {
+func travSeq(lp *LPath) []string { return travSeqT(lp, false) }
+
+// travSeqT: with targets, a call through a function value that is a known function literal on the path is rendered
+// with that literal's name (`func-value:db.interiorIterCB→Iter$1(…)`).
+func travSeqT(lp *LPath, targets bool) []string {
 	var out []string
 	for _, e := range lp.Events {
 		if e.Kind != "call" {
@@ -46,7 +50,11 @@ func travSeq(lp *LPath) []string {
 			out = append(out, exp...)
 			continue
 		}
-		out = append(out, e.Name+"("+strings.Join(e.Args, ", ")+")")
+		name := e.Name
+		if targets && e.Target != "" {
+			name += "→" + e.Target
+		}
+		out = append(out, name+"("+strings.Join(e.Args, ", ")+")")
 	}
 	return out
 }
@@ -168,6 +176,9 @@ type travSpec struct {
 	whole  []string // allowed clean whole-function sequences (0 or 1 concrete iteration, then exit)
 	body   []string // allowed clean generic-iteration sequences (continue to the next cell)
 	noLoop bool
+	// merged: the method does the work of the cell-iteration helper it used to delegate to (that helper is gone and
+	// whatever replaced it is walked in place); calls through the callback name the function literal they reach
+	merged bool
 }
 
 const (
@@ -246,10 +257,65 @@ func findFn(p *Program, key string) *ssa.Function {
 	return synth
 }
 
+// mergedTravSpecs: when (*tableInterior).cellIter / cellIterMin do not exist, Iter / IterMin themselves (with the
+// helpers that replaced them walked in place) must visit what the pair visited: the callback is the method's own
+// function literal, the cells are all cells (Iter) or those from the binary search's answer on (IterMin), then the
+// right-most child.
+func mergedTravSpecs(p *Program, specs []travSpec) []travSpec {
+	byFn := map[string]travSpec{}
+	for _, sp := range specs {
+		byFn[sp.fn] = sp
+	}
+	var out []travSpec
+	drop := map[string]bool{}
+	repl := map[string]travSpec{}
+	for _, pair := range [][3]string{
+		{"(*db.tableInterior).cellIter", "(*db.tableInterior).Iter", "Iter$1"},
+		{"(*db.tableInterior).cellIterMin", "(*db.tableInterior).IterMin", "IterMin$1"},
+	} {
+		if findFn(p, pair[0]) != nil || findFn(p, pair[1]) == nil {
+			continue
+		}
+		h := byFn[pair[0]]
+		ns := travSpec{fn: pair[1], merged: true}
+		fix := func(s string) string {
+			s = strings.Replace(s, "func-value:db.interiorIterCB(", "func-value:db.interiorIterCB→"+pair[2]+"(", -1)
+			return s
+		}
+		for _, w := range h.whole {
+			ns.whole = append(ns.whole, fix(w))
+		}
+		for _, b := range h.body {
+			ns.body = append(ns.body, fix(b))
+		}
+		drop[pair[0]] = true
+		repl[pair[1]] = ns
+	}
+	for _, sp := range specs {
+		if drop[sp.fn] {
+			continue
+		}
+		if r, ok := repl[sp.fn]; ok {
+			sp = r
+		}
+		out = append(out, sp)
+	}
+	return out
+}
+
+var reSearchClosure = regexp.MustCompile(`closure:[A-Za-z0-9_]+\$1\)`)
+var reSearchCall = regexp.MustCompile(`\[call:\(\*db\.tableInterior\)\.[A-Za-z0-9_]+:\]`)
+
 func runTrav(c *Ctx) {
 	p := c.P
 	travProg = p
-	for _, sp := range travSpecs() {
+	for _, sp := range mergedTravSpecs(p, travSpecs()) {
+		if sp.merged {
+			// the two obligations of the helper that is gone are decided on the method that took its work over
+			helper := strings.Replace(strings.Replace(sp.fn, ").IterMin", ").cellIterMin", 1), ").Iter", ").cellIter", 1)
+			c.Trivial(helper+" order", token.NoPos, "%s does not exist; %s is judged with whatever replaced it walked in place", helper, sp.fn)
+			c.Trivial(helper+" every cell", token.NoPos, "%s does not exist; %s is judged with whatever replaced it walked in place", helper, sp.fn)
+		}
 		fn := findFn(p, sp.fn)
 		if fn == nil {
 			c.Undecided("anchor "+sp.fn, token.NoPos, "traversal function %s not found", sp.fn)
@@ -285,7 +351,11 @@ func runTrav(c *Ctx) {
 				bad = fmt.Sprintf("the traversal depends on a condition the rule cannot interpret: %v", lp.Unknown)
 				continue
 			}
-			s := normSeq(travSeq(lp))
+			s := normSeq(travSeqT(lp, sp.merged))
+			if sp.merged {
+				// the binary search may live in a helper of its own: its predicate is SRCH's business
+				s = reSearchClosure.ReplaceAllString(s, "closure:cellIterMin$$1)")
+			}
 			if !allowed[s] {
 				bad = "visits [" + s + "]"
 			}
@@ -341,7 +411,12 @@ func runTrav(c *Ctx) {
 				continue
 			}
 			nCont++
-			s := normSeq(travSeq(lp))
+			s := normSeq(travSeqT(lp, sp.merged))
+			if sp.merged {
+				// in the generic iteration the start of the cell range is whatever the method handed the helper
+				s = reSearchCall.ReplaceAllString(s, "[call:sort.Search:]")
+				s = normSeq([]string{s})
+			}
 			if !ballowed[s] {
 				bbad = "[" + s + "]"
 			}
@@ -560,6 +635,27 @@ func runSrch(c *Ctx) {
 		{"(*db.tableInterior).cellIterMin", "key"},
 	} {
 		fn := findFn(p, spec.fn)
+		if fn == nil && spec.fn == "(*db.tableInterior).cellIterMin" {
+			// the search may have moved: whichever freshly written function under (*tableInterior).IterMin holds it
+			if m := findFn(p, "(*db.tableInterior).IterMin"); m != nil {
+				var look func(f *ssa.Function, depth int)
+				look = func(f *ssa.Function, depth int) {
+					for _, cs := range callsIn(f) {
+						cal := cs.Common().StaticCallee()
+						if cal == nil {
+							continue
+						}
+						if isLibFunc(cal, "sort", "Search") && fn == nil {
+							fn = f
+						}
+						if depth < 2 && inlinable != nil && inlinable(cal) {
+							look(cal, depth+1)
+						}
+					}
+				}
+				look(m, 0)
+			}
+		}
 		if fn == nil {
 			c.Undecided("anchor "+spec.fn, token.NoPos, "not found")
 			continue
